@@ -5,11 +5,11 @@ from ..texts import T
 
 H = 'c13_threads'
 NPAIRS = 44 * 44   # -3 <= i0, i1 <= 40
-LIFE = 9 * 4 * 130  # thread kinds x bodies x delay patterns (none, 127 masks over the 7 hand-over points, 2 random jitters)
+LIFE = 10 * 4 * 130  # thread kinds x bodies x delay patterns (none, 127 masks over the 7 hand-over points, 2 random jitters)
 
 plan('C13',
-     rule='parallel_for: every (i0, i1) with -3 <= i0, i1 <= 40 and every thread count 1..12 (one distinct item per triple), sampled larger ranges; lifecycles: 9 thread scenarios '
-          '(subclass, lambda, parallel_invoke 2/3/4, ThreadGroup, two lambdas, restart after join, restart after finished() was polled) x 4 task bodies (empty .. 2 ms) x 130 delay patterns forced at the library\'s hand-over points '
+     rule='parallel_for: every (i0, i1) with -3 <= i0, i1 <= 40 and every thread count 1..12 (one distinct item per triple), sampled larger ranges; lifecycles: 10 thread scenarios '
+          '(subclass, lambda, parallel_invoke 2/3/4, ThreadGroup, two lambdas, restart after join, restart after finished() was polled, a Thread started inside parallel_invoke that outlives it) x 4 task bodies (empty .. 2 ms) x 130 delay patterns forced at the library\'s hand-over points '
           '(distinct = hash of the observed order of hook events); Semaphore and Condition producer/consumer histories with unique items and conservation at quiescence',
      jobs=[
          Job(H, 'pfor', 'plain', quick=NPAIRS, thorough=NPAIRS, shards=(6, 8)),
@@ -17,6 +17,8 @@ plan('C13',
          Job(H, 'pfor', 'tsan', quick=NPAIRS, thorough=NPAIRS, shards=(8, 8), params=dict(nthstride=4), tparams=dict(nthstride=1), batch=50, leakcheck=False),
          Job(H, 'pfor_big', 'plain', quick=300, thorough=6000, shards=(2, 4), weight=2),
          Job(H, 'pfor_big', 'tsan', quick=60, thorough=1000, shards=(2, 4), weight=2, batch=20, leakcheck=False),
+         Job(H, 'pfor_mt', 'plain', quick=200, thorough=2000, shards=(4, 8), params=dict(rounds=30), weight=2),
+         Job(H, 'pfor_mt', 'tsan', quick=16, thorough=100, shards=(4, 8), params=dict(rounds=8), weight=2, batch=4, leakcheck=False),
          Job(H, 'lifecycle', 'plain', quick=LIFE, thorough=LIFE, shards=(8, 8), params=dict(reps=5), tparams=dict(reps=20)),
          Job(H, 'lifecycle', 'asan', quick=LIFE, thorough=LIFE, shards=(6, 8), params=dict(reps=1), tparams=dict(reps=5)),
          Job(H, 'lifecycle', 'tsan', quick=LIFE // 2, thorough=LIFE, shards=(6, 8), params=dict(reps=1), tparams=dict(reps=3), batch=40, leakcheck=False),
